@@ -106,6 +106,13 @@ struct FindPrototypeByCallableFromIndex <
 			? N
 			: FindPrototypeByCallableFromIndex<N + 1, HeterTuple<Others...>, Callable, ArgTransformer, M>::index
 	};
+
+	// The prototypes listed after the found one (its index is index + 1 in the whole list).
+	using RemainingList = typename std::conditional<
+		canInvoke,
+		HeterTuple<Others...>,
+		typename FindPrototypeByCallableFromIndex<N + 1, HeterTuple<Others...>, Callable, ArgTransformer, M>::RemainingList
+	>::type;
 };
 
 template <
@@ -131,6 +138,8 @@ struct FindPrototypeByCallableFromIndex <
 	enum {
 		index = -1
 	};
+
+	using RemainingList = HeterTuple<>;
 };
 
 template <typename PrototypeList_, typename Callable, template <typename> class ArgTransformer = FindPrototypeDefaultArgTransformer>
